@@ -22,10 +22,14 @@ Plain  == {Absent, Dir} \cup {File(t) : t \in 0..2}
 Pyc    == {Absent, Dir} \cup {[k |-> "file", t |-> t, magic |-> m, hash |-> h] : t \in 0..2, m \in BOOLEAN, h \in BOOLEAN}
 
 \* kind "any": e1, e2 = name + first / second configured suffix;  kind "py": e1 = M.py, pyc = sibling M.pyc
+\* born: the searcher object is created "after" the directory has its contents, or "before" the directory even
+\*       exists (it is created and filled later, e.g. by the writer of an earlier compile() call).  Searchers keep
+\*       no state: the answer depends on the directory at the time of the question only - Algo ignores `born`.
 Configs ==
-       [kind : {"any"}, rebuild : BOOLEAN, inlist : {FALSE}, e1 : Plain, e2 : Plain, pyc : {Absent}]
-  \cup [kind : {"py", "pypkg"}, rebuild : BOOLEAN, inlist : {FALSE}, e1 : Plain, e2 : {Absent}, pyc : Pyc]
-  \cup [kind : {"stub"}, rebuild : BOOLEAN, inlist : BOOLEAN, e1 : {Absent}, e2 : {Absent}, pyc : {Absent}]
+       [kind : {"any"}, rebuild : BOOLEAN, inlist : {FALSE}, e1 : Plain, e2 : Plain, pyc : {Absent}, born : {"after", "before"}]
+  \cup [kind : {"py"}, rebuild : BOOLEAN, inlist : {FALSE}, e1 : Plain, e2 : {Absent}, pyc : Pyc, born : {"after", "before"}]
+  \cup [kind : {"pypkg"}, rebuild : BOOLEAN, inlist : {FALSE}, e1 : Plain, e2 : {Absent}, pyc : Pyc, born : {"after"}]
+  \cup [kind : {"stub"}, rebuild : BOOLEAN, inlist : BOOLEAN, e1 : {Absent}, e2 : {Absent}, pyc : {Absent}, born : {"after"}]
 
 FreshPlain(e) == e.k = "file" /\ e.t >= Src
 \* the source time recorded in a .pyc: none for bad magic or hash-based files
